@@ -7,16 +7,34 @@ for triage. Nothing is written into /repo. Usage: mutate.py [file.go ...] [-j N]
 import json, os, re, shutil, subprocess, sys, tempfile, concurrent.futures, random
 
 V = '/verif'
-REPO = '/repo'
 ENV = dict(os.environ, GOFLAGS='-mod=mod', GOPROXY='off', GOSUMDB='off', GOTOOLCHAIN='local')
+# work on a frozen snapshot of the library (with its contracts), the engine binary, the baseline and the known findings,
+# so that the analysis is not disturbed by (and does not constrain) work going on in /repo and /verif meanwhile
+SNAP = tempfile.mkdtemp(prefix='mutsnap.')
+REPO = os.path.join(SNAP, 'repo')
+os.makedirs(REPO)
+for g in os.listdir('/repo'):
+    if g.endswith('.go') or g in ('go.mod', 'go.sum'):
+        shutil.copy(os.path.join('/repo', g), REPO)
+os.makedirs(os.path.join(SNAP, 'verif', 'baseline'))
+shutil.copy(V + '/bin/gobv', os.path.join(SNAP, 'gobv'))
+shutil.copy(V + '/baseline/obligations.json', os.path.join(SNAP, 'verif', 'baseline'))
+shutil.copy(V + '/known_findings.json', os.path.join(SNAP, 'verif'))
+GOBV = os.path.join(SNAP, 'gobv')
+ENV['GOBV_VERIF_DIR'] = os.path.join(SNAP, 'verif')
+import atexit
+atexit.register(lambda: shutil.rmtree(SNAP, ignore_errors=True))
 args = sys.argv[1:]
 J = 4
 MAX = 10 ** 9
+OUT = V + '/selftest/mutation_report.json'
 files = []
 i = 0
 while i < len(args):
     if args[i] == '-j':
         J = int(args[i + 1]); i += 2
+    elif args[i] == '-o':
+        OUT = args[i + 1]; i += 2
     elif args[i] == '-max':
         MAX = int(args[i + 1]); i += 2
     else:
@@ -133,7 +151,7 @@ def run(m):
         killed_by = []
         for prop in sorted(props_of(fn)):
             out = tempfile.mkdtemp(prefix='mut.out.')
-            r = subprocess.run([V + '/bin/gobv', 'check', '-p', prop, '-repo', d, '-out', out], capture_output=True, text=True, env=dict(ENV, GOBV_NO_REPLAY='1'))
+            r = subprocess.run([GOBV, 'check', '-p', prop, '-repo', d, '-out', out], capture_output=True, text=True, env=dict(ENV, GOBV_NO_REPLAY='1'))
             shutil.rmtree(out)
             v = [l.split('obligation=')[1].split()[0] for l in r.stdout.splitlines() if l.startswith('VIOLATION')]
             if r.returncode == 1 and v:
@@ -153,8 +171,8 @@ with concurrent.futures.ThreadPoolExecutor(max_workers=J) as ex:
             print('%d/%d tried, %d compiled, %d killed' % (k + 1, len(muts), len(done), sum(1 for x in done if x['killed_by'])), file=sys.stderr)
 surv = [r for r in res if not r['killed_by']]
 rep = {'compiled': len(res), 'killed': len(res) - len(surv), 'survivors': surv}
-json.dump(rep, open(V + '/selftest/mutation_report.json', 'w'), indent=1)
-print('mutants compiled: %d, killed: %d, survivors: %d (selftest/mutation_report.json)' % (len(res), len(res) - len(surv), len(surv)))
+json.dump(rep, open(OUT, 'w'), indent=1)
+print('mutants compiled: %d, killed: %d, survivors: %d (%s)' % (len(res), len(res) - len(surv), len(surv), OUT))
 by = {}
 for s in surv:
     by.setdefault(s['func'], []).append(s)
